@@ -13,7 +13,8 @@ REQUIRED_MONITORS = ["second evaluation from the same auxiliary matrices", "delt
                      "class-uses-the-same-propagation@SSIcov(calc_unc)"]
 ALL_STATES = ["single column factor", "multi column factor", "order < ordmax", "order = ordmax", "l=1", "l=3", "ref subset", "br=2", "br=5"]
 REQUIRED_STATES = ["single column factor", "multi column factor", "order < ordmax", "order = ordmax", "ref subset", "column-major Hankel matrix",
-                   "singular values below 1e-8 (small-amplitude records)"]
+                   "singular values below 1e-8 (small-amplitude records)", "exactly symmetric Hankel matrix (one channel, its own reference)",
+                   "covariance factor with columns 8 decades apart"]
 RULE = ("Hankel matrices = exact rank-2m product (C01 generator, unit norm) + 1e-3 full-rank part, or estimated from data; 1..3 channels, any reference "
         "subset, br 2..5, orders 2..8 (also below ordmax); covariance factor with 1..20 columns of random directions vec_F(dH_k), or the factor "
         "build_hank returns; Fn_cov compared with the sum of squared central finite differences of the identification itself (eps 1e-6 and 1e-7 must "
@@ -68,6 +69,17 @@ def low_rank_hankel(rng):
         Gam = np.hstack([(mu**k)[:, None] * G for k in range(q)])
         H = (O @ Gam).real
         H = H / np.linalg.norm(H, 2)
+        low_rank_hankel.symmetric = False
+        if l == 1 and r == 1 and rng.random() < 0.6:
+            # one channel that is its own reference: the exact matrix is a Hankel matrix R_{a+b+1}, i.e. exactly symmetric - and so is a
+            # small full-rank Hankel-structured part (indefinite: an oscillating correlation has negative eigenvalues)
+            q0 = rng.uniform(0.5, 2, m) * np.exp(1j * rng.uniform(0, 2 * np.pi, m))
+            seq = np.array([np.real(np.sum(q0 * np.exp(lam * dt * k_))) for k_ in range(1, 2 * br + 3)])
+            seq = seq / np.max(np.abs(seq)) + 1e-3 * rng.standard_normal(len(seq))
+            H = np.array([[seq[a_ + b_] for b_ in range(br + 1)] for a_ in range(br + 1)])
+            H = H / np.linalg.norm(H, 2)
+            low_rank_hankel.symmetric = bool(np.array_equal(H, H.T))
+            return H, br, n, dt, l, r
         H = H + 1e-3 * rng.standard_normal(H.shape)
         return H, br, n, dt, l, r
     raise RuntimeError("generator")
@@ -109,13 +121,20 @@ def judge_orders(ctx, tag, ssi, H, br, ordmax, dt, T, orders, sig):
         tot = {}
         for eps in (1e-6, 1e-7):
             acc = np.zeros(order)
+            nH = np.linalg.norm(H)
             for dH in dHs:
-                fp, lp = ident(ssi, H + eps * dH, br, order, ordmax, dt)
-                fm, lm = ident(ssi, H - eps * dH, br, order, ordmax, dt)
+                # directional derivative along the column, taken along the direction scaled to the size of H (the derivative is linear in
+                # the direction): columns of any magnitude are differentiated at the same relative step
+                nk = np.linalg.norm(dH) / nH
+                if nk == 0:
+                    continue
+                U_ = dH / nk
+                fp, lp = ident(ssi, H + eps * U_, br, order, ordmax, dt)
+                fm, lm = ident(ssi, H - eps * U_, br, order, ordmax, dt)
                 for j in range(order):
                     jp = int(np.argmin(np.abs(lp - l0[j])))
                     jm = int(np.argmin(np.abs(lm - l0[j])))
-                    acc[j] += ((fp[jp] - fm[jm]) / (2 * eps)) ** 2
+                    acc[j] += ((fp[jp] - fm[jm]) / (2 * eps) * nk) ** 2
             tot[eps] = acc
         agree = np.max(np.abs(tot[1e-6] - tot[1e-7]) / np.maximum(tot[1e-6], 1e-300))
         if agree > 1e-4:
@@ -146,6 +165,14 @@ def run_synthetic(ctx, rng):
         ordmax = n
     nb = 1 if rng.random() < 0.35 else int(rng.integers(2, 21))
     T = np.hstack([rng.standard_normal(H.shape).reshape(-1, 1, order="F") for _ in range(nb)])
+    if getattr(low_rank_hankel, "symmetric", False):
+        ctx.state("exactly symmetric Hankel matrix (one channel, its own reference)")
+    if nb >= 2 and rng.random() < 0.2:
+        # a factor with an enormous dynamic range: one large column along which the frequencies do not move at all (a common gain
+        # uncertainty, vec(H) itself) beside small generic columns - the small ones carry all the variance
+        T = T / np.linalg.norm(T, axis=0, keepdims=True) * 4e-10 * np.linalg.norm(H)
+        T[:, 0] = 0.05 * H.reshape(-1, order="F")
+        ctx.state("covariance factor with columns 8 decades apart")
     orders = sorted({2, n, ordmax} if rng.random() < 0.5 else {n, ordmax})
     if rng.random() < 0.35:
         a = float(10 ** rng.uniform(-13, 4))  # the propagation is homogeneous of degree 0 in a common scale of (H, factor)
